@@ -14,7 +14,7 @@ use crate::{
     oracle,
     report::{esc_short, Report},
     rng::{fnv_parts, Rng},
-    run::{run_leg, Bin, Leg, Outcome, SearchCfg},
+    run::{followup_input, run_leg, run_leg_then, Bin, Leg, Outcome, SearchCfg},
     sinklog::{log_to_json, Event, LogError, ReadOp, Stop},
     Ctx,
 };
@@ -81,11 +81,12 @@ thread_local! {
         std::cell::RefCell::new(None);
 }
 
-fn run_one(
+fn run_one_mode(
     case: &Case16,
     leg: &Leg,
     stop: Option<(usize, Stop)>,
-) -> Result<Outcome, String> {
+    mode: After,
+) -> Result<(Outcome, Option<Outcome>), String> {
     let mut flags = case.base.flags(case.multiline);
     if case.multiline {
         flags.dotall = false;
@@ -104,7 +105,56 @@ fn run_one(
     })?;
     let mut cfg: SearchCfg = case.base.cfg.clone();
     cfg.multi_line = case.multiline;
-    Ok(run_leg(&m, &cfg, leg, &case.base.input, stop))
+    match mode {
+        After::Nothing => Ok((run_leg(&m, &cfg, leg, &case.base.input, stop), None)),
+        After::SearchAgain => {
+            let (a, b) = run_leg_then(&m, &cfg, leg, &case.base.input, stop);
+            Ok((a, Some(b)))
+        }
+        After::OnlyTheSecond => {
+            // the second input alone, through a searcher without a past
+            let next = followup_input(cfg.term);
+            let alone = Leg::Reader { cap: None, script: vec![], tail: 11, cycle: false };
+            Ok((run_leg(&m, &cfg, &alone, &next, None), None))
+        }
+    }
+}
+
+/// What happens to the searcher after the judged search.
+#[derive(Clone, Copy, PartialEq)]
+enum After {
+    Nothing,
+    /// it searches `followup_input` next, as a worker goes on to its next file
+    SearchAgain,
+    OnlyTheSecond,
+}
+
+fn run_one(case: &Case16, leg: &Leg, stop: Option<(usize, Stop)>) -> Result<Outcome, String> {
+    run_one_mode(case, leg, stop, After::Nothing).map(|x| x.0)
+}
+
+/// A search that was stopped or failed must leave nothing behind: the next
+/// search by the same searcher delivers what a fresh searcher delivers.
+fn check_followup(
+    rep: &mut Report,
+    case: &Case16,
+    leg: &Leg,
+    sigbase: &str,
+    fault: &Value,
+    alone: &Outcome,
+    second: &Outcome,
+) {
+    rep.count("followup_searches_after_an_interrupted_one");
+    if second.log != alone.log || second.result != alone.result {
+        let i = second.log.iter().zip(alone.log.iter()).position(|(a, b)| a != b).unwrap_or(second.log.len().min(alone.log.len()));
+        viol(rep, case, leg, format!("{}:next-search-sees-the-interrupted-one", sigbase),
+             format!("the next search by the same searcher differs from a fresh searcher's at event {}: fresh {} / reused {} (results {:?} / {:?})",
+                     i,
+                     alone.log.get(i).map_or("-".into(), |e| e.to_json().to_string()),
+                     second.log.get(i).map_or("-".into(), |e| e.to_json().to_string()),
+                     alone.result, second.result),
+             fault.clone(), &alone.log, &second.log);
+    }
 }
 
 fn is_prefix(p: &[Event], full: &[Event]) -> bool {
@@ -155,6 +205,11 @@ pub fn check_case(
     rep: &mut Report,
 ) {
     let strat = if case.multiline { "ml" } else { "line" };
+    // what a searcher without a past delivers for the text searched second
+    let alone: Option<Outcome> = run_one_mode(case, &Leg::Slice, None, After::OnlyTheSecond)
+        .ok()
+        .map(|x| x.0)
+        .filter(|o| o.result.is_ok());
     for leg in legs {
         rep.evaluations += 1;
         let full = match run_one(case, leg, None) {
@@ -195,7 +250,8 @@ pub fn check_case(
         for &k in &ks {
             let evk = full.log[k].kind_name();
             for how in [Stop::False, Stop::Err] {
-                let out = match run_one(case, leg, Some((k, how))) {
+                let again = if k % 2 == 0 && alone.is_some() { After::SearchAgain } else { After::Nothing };
+                let (out, second) = match run_one_mode(case, leg, Some((k, how)), again) {
                     Ok(o) => o,
                     Err(_) => continue,
                 };
@@ -205,6 +261,9 @@ pub fn check_case(
                 let fault = json!({"sink_stop_at": k, "how": hname, "event": full.log[k].to_json()});
                 let sigbase = format!("C16:{}:{}:sink-{}@{}", strat, leg.short(), hname, evk);
                 let is_finish = matches!(full.log[k], Event::Finish { .. });
+                if let (Some(alone), Some(second)) = (alone.as_ref(), second.as_ref()) {
+                    check_followup(rep, case, leg, &sigbase, &fault, alone, second);
+                }
                 match how {
                     Stop::Err => {
                         if out.result != Err(LogError::Injected) {
@@ -277,7 +336,8 @@ pub fn check_case(
                         tail: *tail,
                         cycle: false,
                     };
-                    let out = match run_one(case, &fleg, None) {
+                    let again = if j % 2 == 0 && alone.is_some() { After::SearchAgain } else { After::Nothing };
+                    let (out, second) = match run_one_mode(case, &fleg, None, again) {
                         Ok(o) => o,
                         Err(_) => continue,
                     };
@@ -285,6 +345,9 @@ pub fn check_case(
                     let oname = if op == ReadOp::Fail { "fail" } else { "interrupted" };
                     let fault = json!({"read_index": j, "op": oname});
                     let sigbase = format!("C16:{}:reader:read-{}", strat, oname);
+                    if let (Some(alone), Some(second)) = (alone.as_ref(), second.as_ref()) {
+                        check_followup(rep, case, &fleg, &sigbase, &fault, alone, second);
+                    }
                     let has_finish = out.log.iter().any(|e| matches!(e, Event::Finish { .. }));
                     match (&out.result, op) {
                         (Ok(()), ReadOp::Interrupted) => {
